@@ -18,7 +18,8 @@ PARTIAL = ["EM monotonicity of the observed-data likelihood and EM = MLE without
            "pandas groupby/unstack/reindex are compared, not modelled"]
 RULE = ("random DAGs over 2-5 data columns incl. isolated nodes, 5-40 rows, declared-but-unseen states, unseen parent configurations, "
         "categorical / integer columns, weighted rows, n_jobs 1/2; estimators MLE, Bayesian(K2, BDeu, Dirichlet), fit, DAG.fit, fit_update, EM; "
-        "non-trivial = some node has a parent; distinct = case JSON")
+        "non-trivial = some node has a parent; distinct = case JSON"
+        " Also: Dirichlet tables as float arrays (purity, reuse), fit over pre-existing CPDs, undeclared states with unused categorical levels, n_prev_samples = 0.")
 ASSUMPTIONS = ["string-valued columns are passed as pandas category dtype (pandas 3 'str' dtype is rejected by preprocess_data)"]
 BUDGET_QUICK = 90
 LEVEL_TEXT = ("Kernel-checked: the count table denotes, at every assignment, the weighted number of rows agreeing with it (hence is invariant "
